@@ -189,25 +189,35 @@ type Finding struct {
 	What     string `json:"what"`
 }
 
-// OpenFinding reports whether known_findings.json lists (property,key) as open.
+// OpenFinding reports whether the known-findings ledger (known_findings.json
+// plus known_findings.d/*.json next to it) lists (property,key) as open.
 func OpenFinding(prop, key string) bool {
 	p := os.Getenv("VERIF_KNOWN")
 	if p == "" {
 		return false
 	}
-	b, err := os.ReadFile(p)
-	if err != nil {
-		return false
-	}
-	var f struct {
-		Findings []Finding `json:"findings"`
-	}
-	if json.Unmarshal(b, &f) != nil {
-		return false
-	}
-	for _, e := range f.Findings {
-		if e.Property == prop && e.Key == key && e.Status == "open" {
-			return true
+	files := []string{p}
+	more, _ := filepath.Glob(filepath.Join(filepath.Dir(p), "known_findings.d", "*.json"))
+	sort.Strings(more)
+	files = append(files, more...)
+	for _, fn := range files {
+		b, err := os.ReadFile(fn)
+		if err != nil {
+			continue
+		}
+		var f struct {
+			Findings []Finding `json:"findings"`
+		}
+		var l []Finding
+		if json.Unmarshal(b, &f) == nil && len(f.Findings) > 0 {
+			l = f.Findings
+		} else if json.Unmarshal(b, &l) != nil {
+			continue
+		}
+		for _, e := range l {
+			if e.Property == prop && e.Key == key && e.Status == "open" {
+				return true
+			}
 		}
 	}
 	return false
